@@ -28,10 +28,44 @@ def answerScript (toks : List String) : String :=
     | _ => "bad-request"
   | _ => "bad-request"
 
+/-! ### `block`: parse one block and dump every field (same format as the hook) -/
+def dumpBlock (ver : UInt8) (size : Nat) (b : Csv.RBlock) (a : Option Aux.RAux) : Option String :=
+  match M.root A.sha256d (b.txs.map CB.txid) with
+  | none => none
+  | some root =>
+    let h := b.header
+    let head := s!"H {Csv.hashHex (Run.blockHash b)} {h.version} {size} {Csv.hashHex h.prev} {Csv.hashHex h.merkle} {h.time} {h.bits} {h.nonce} {b.txCount.value} "
+    let aux := match a with
+      | none => "N "
+      | some a => s!"A {Csv.hashHex (A.sha256d a.coinbase.toBytes)} {Csv.hashHex a.parentHash} {a.coinbaseBranch.hashes.length} {a.coinbaseBranch.mask} {a.chainBranch.hashes.length} {a.chainBranch.mask} {hex a.parent.toBytes} "
+    let txs := b.txs.map fun t =>
+      s!"T {Csv.hashHex (CB.txid t)} {t.version} {t.lock} {t.toBytes.length} {t.icnt.value} {t.ocnt.value} " ++
+      String.join (t.ins.map fun i => s!"I {Csv.hashHex i.prev} {i.idx} {fieldHex i.script} {i.seq} ") ++
+      String.join (t.outs.map fun o =>
+        let e := S.eval ver o.script
+        s!"O {o.value} {fieldHex o.script} {(patternTag e.pattern)} {e.address.getD "-"} ")
+    some (head ++ aux ++ String.join txs ++ (if root == h.merkle then "M1" else "M0"))
+
+def answerBlock (toks : List String) : String :=
+  match toks with
+  | coin :: size :: rest =>
+    match Run.coinOf coin with
+    | none => "bad-request"
+    | some c =>
+      let bytes := match rest with | [h] => parseHex h | _ => []
+      match Aux.readBlockAux c.auxpow bytes with
+      | none => "eof"
+      | some ((b, a), r) =>
+        match dumpBlock c.version size.toNat! b a with
+        | none => "PANIC"
+        | some d => s!"ok {r.length} {d}"
+  | _ => "bad-request"
+
 def answer (cmd : String) (line : String) : String :=
   let toks := (line.trimAscii.toString.splitOn " ").filter (· ≠ "")
   match cmd with
   | "script" => answerScript toks
+  | "block" => answerBlock toks
   | _ => "bad-command"
 
 /-! ### `run`: whole-program scenarios (DESIGN Appendix D) -/
